@@ -19,7 +19,7 @@
 #define SPEC_STORE (!SPEC_HAVE_DATA && (fRequested || (pindex->nTx == 0 && SPEC_ENOUGH_WORK && SPEC_NOT_TOO_FAR && pindex->nChainWork >= min_work)))
 
 VERIF_REACH_DECL(AcceptBlock_unrequested)
-int AcceptBlock_unrequested(CBlockIndex* pindex, bool fRequested, const CBlockIndex* tip, int active_height, u256 min_work)
+int AcceptBlock_unrequested(CBlockIndex* pindex, bool fRequested, bool min_pow_checked, const CBlockIndex* tip, int active_height, u256 min_work)
 __CPROVER_requires(__CPROVER_is_fresh(pindex, sizeof(*pindex)) && (tip == NULL || __CPROVER_is_fresh(tip, sizeof(*tip))))
 __CPROVER_requires(pindex->nHeight >= 0 && active_height >= -1 && active_height <= INT_MAX - 288)
 __CPROVER_requires((tip == NULL) == (active_height == -1) && (tip != NULL ==> active_height == tip->nHeight))
@@ -41,5 +41,5 @@ void h_AcceptBlock_unrequested(void)
 {
     CBlockIndex* pindex; const CBlockIndex* tip; u256 mw;
     VERIF_REACH_ON(AcceptBlock_unrequested);
-    AcceptBlock_unrequested(pindex, nondet_bool(), tip, nondet_int(), mw);
+    AcceptBlock_unrequested(pindex, nondet_bool(), nondet_bool(), tip, nondet_int(), mw);
 }
